@@ -142,7 +142,7 @@ func c02Run(c c02Case) Verdict {
 	rest, fin := w.Finish()
 	rest = append(early, rest...)
 	if !fin {
-		return Verdict{Inconclusive: "watchdog while finishing"}
+		return finishFail(w)
 	}
 	v := Verdict{}
 	hasBait := false
